@@ -104,7 +104,8 @@ impl Ssh {
                                 }
                             }
                         } else {
-                            // TODO: what should we do if it's None?
+                            tracing::info!("ssh channel closed, hanging up");
+                            break;
                         }
                     }
                 }
